@@ -335,7 +335,7 @@ fn main() {
             Program { prios: vec![Low, Normal, Priority, Normal], max_cancels: 0, max_defer: 1 },
         ],
     };
-    let deadline = Instant::now() + Duration::from_secs(cli.tier.pick(20, 600));
+    let deadline = Instant::now() + Duration::from_secs(cli.tier.pick(150, 600));
     let mut per_prog = vec![];
     let mut total = (0u64, 0u64, false);
     for prog in &programs {
@@ -346,7 +346,7 @@ fn main() {
         total.1 += c.1;
         total.2 |= c.2;
     }
-    let b = part_b::part_b(&rep, cli.tier, Instant::now() + Duration::from_secs(cli.tier.pick(35, 1200)));
+    let b = part_b::part_b(&rep, cli.tier, Instant::now() + Duration::from_secs(cli.tier.pick(240, 1200)));
     let bs = b["schedules"].as_u64().unwrap_or(0);
     let bcap = b["cap"].as_str().map(|s| s.to_string());
     rep.set("states", total.0 + bs);
